@@ -134,7 +134,7 @@ def window_bfs(n, ntags, depth, deadline):
         return (got[0], got[1] if got[0] != 'ok' or op[0] == 'acq' else None), errors
 
     def canon(impl, model):
-        return (model.state(), _impl_state(impl))
+        return (model.state(), bfs.snapshot(impl))
 
     return bfs.bfs(make, ops_of, step, canon, depth, deadline=deadline)
 
@@ -173,7 +173,7 @@ def task_bfs(n, depth, deadline):
         return got, errors
 
     def canon(impl, model):
-        return model.out
+        return (model.out, bfs.snapshot(impl))
 
     return bfs.bfs(make, ops_of, step, canon, depth, deadline=deadline)
 
@@ -336,7 +336,8 @@ def bounded_executor_bfs(cap, tagcap, wincap, depth, deadline):
         return got, errors
 
     def canon(impl, m):
-        return (tuple(sorted(m.out.items())), tuple((k, fin) for k, fin, _t in m.tasks))
+        return (tuple(sorted(m.out.items())), tuple((k, fin) for k, fin, _t in m.tasks),
+                bfs.snapshot(impl._semaphore), tuple(sorted((repr(k), bfs.snapshot(v)) for k, v in impl._tag_semaphores.items())))
 
     return bfs.bfs(make, ops_of, step, canon, depth, deadline=deadline)
 
